@@ -79,13 +79,13 @@ CHECKS['C22'] = dict(
 CHECKS['C05'] = dict(
    engine='kani', category='other', design_ref='DESIGN.md §9.9 C05/C06',
    technique='contract harnesses (Kani/CBMC) on the bindings the real Rust generator produces for a value probe world, the harness acting as the host at the core-ABI boundary with hand-written Canonical-ABI encodings (flat parameters, joined variant slots, return-area layout)',
-   text='PARTIAL and BOUNDED (level "other"): for ONE probe world, export direction. Every generated export trampoline hands the user function exactly the value the host lowered and stores exactly the value the user returned at its canonical offsets: record, tuple, option, result, flags, enum and the numeric cases of a variant with a joined 64-bit-or-pointer slot over their full domains; string, list<u8>, list<u32>, the variant\'s string case and list<string> for bounded lengths.',
-   note='BOUNDED: list/string lengths 0..=2 (list<string>: <= 1 element of <= 1 byte), ASCII only; one probe world; imports, async, resources (C07) not driven. The host side is hand-written in the harness from CanonicalABI.md with the 64-bit target\'s pointer size (the generator emits size_of::<*const u8>() offsets, so wasm32 is the same text with P = 4). std UTF-8 validation is a trusted stub.')
+   text='PARTIAL and BOUNDED (level "other"): for ONE probe world, export direction. Every generated export trampoline hands the user function exactly the value the host lowered and stores exactly the value the user returned at its canonical offsets: record, tuple, option, result, flags, enum and the numeric cases of a variant with a joined 64-bit-or-pointer slot over their full domains; a variant { f32, u64, f64 } (f32 in a slot widened to i64) over every bit pattern, through an export and through an import; string, list<u8>, list<u32>, list<tuple>, the variant\'s string case, a record with string and list fields, result<string, u32>, list<string>, list<record { u64, string }> (element size with a byte part and a pointer part) and map<string, u32> (second probe world, generated with --map-type) for bounded lengths.',
+   note='BOUNDED: list/string lengths 0..=2 (lists of strings / records: list length fixed per obligation at 0, 1 or 2, element strings <= 1 byte), ASCII only; one probe world; one import (the f32 variant), otherwise export direction; async, resources (C07) not driven. The host side is hand-written in the harness from CanonicalABI.md with the 64-bit target\'s pointer size (the generator emits size_of::<*const u8>() offsets, so wasm32 is the same text with P = 4). std UTF-8 validation is a trusted stub.')
 CHECKS['C06'] = dict(
    engine='kani', category='other', design_ref='DESIGN.md §9.9 C05/C06',
    technique='contract harnesses (Kani/CBMC) on the same generated bindings with every heap block going through a ledger (contract stubs on alloc/dealloc/realloc and std\'s private *_nonnull variants)',
-   text='PARTIAL and BOUNDED (level "other"): for string, list<u8>, list<u32>, a variant with a string case and list<string> parameters and results of one probe world, after the export trampoline, the user function and the generated post-return: no block was freed twice or with a size/alignment other than the one it was allocated with, the host-provided buffers were taken over exactly once, and nothing is left allocated; out-of-bounds accesses are excluded by CBMC\'s pointer checks.',
-   note='BOUNDED: lengths as C05. A read after free is NOT observable in this harness (a stub cannot call the function it replaces, so freed memory is never returned to the allocator model); double free, foreign-layout free and leaks are. Imports, async and resources are not driven.')
+   text='PARTIAL and BOUNDED (level "other"): for string, list<u8>, list<u32>, list<tuple>, a variant with a string case, a record with a string and a list field, result<string, u32>, list<string>, list<record { u64, string }> and map<string, u32> parameters and results of two probe worlds, after the export trampoline, the user function and the generated post-return: no block was freed twice or with a size/alignment other than the one it was allocated with, the host-provided buffers were taken over exactly once, and nothing is left allocated; out-of-bounds accesses are excluded by CBMC\'s pointer checks.',
+   note='BOUNDED: lengths as C05; maps use the harness\'s vector-of-pairs type through the generator\'s --map-type option (BTreeMap does not get through CBMC); an import with option<list<string>> and one with option<map<string, u32>> check that the lowering\'s scratch buffer is alive during the call and freed once. A read after free is NOT observable in this harness (a stub cannot call the function it replaces, so freed memory is never returned to the allocator model); double free, foreign-layout free and leaks are. Imports, async and resources are not driven.')
 
 CHECKS['C02'] = dict(
    engine='kani', category='other', design_ref='DESIGN.md §9.11 C02',
@@ -96,19 +96,19 @@ CHECKS['C02'] = dict(
 CHECKS['C08'] = dict(
    engine='kani', category='other', design_ref='DESIGN.md §9.13 C08',
    technique='contract harnesses (Kani/CBMC) on the async bindings the real Rust generator produces for a probe world, mounted inside the guest runtime crate so that they run on the real executor/Subtask code with the canonical built-ins replaced by a mock host',
-   text='PARTIAL and BOUNDED (level "other"): one probe world, scalar (u32) functions, calls that complete in their first step. An async export receives the value a sync binding would lift and reports its result through task.return exactly once, after the user\'s work finished, canonically lowered, with no cancellation signal, answering EXIT and releasing the task; an async import that returns at once makes exactly one core call with the canonically lowered parameter and lifts the result from the results area, with no handle left to drop, cancel or wait on.',
-   note='Not covered: string/list payloads (the harnesses exist but exceed CBMC\'s memory), pending calls (the runtime side is C21/C22), the cancellation signal of a dropped async export (function-local built-in, cannot be stubbed), owned handles. The generator is run with --runtime-path crate::rt and its output mounted in crates/guest-rust under a second cfg set only by this check.')
+   text='PARTIAL and BOUNDED (level "other"): two probe worlds. (a) On the real runtime, scalar (u32) functions, calls that complete in their first step. An async export receives the value a sync binding would lift and reports its result through task.return exactly once, after the user\'s work finished, canonically lowered, with no cancellation signal, answering EXIT and releasing the task; an async import that returns at once makes exactly one core call with the canonically lowered parameter and lifts the result from the results area, with no handle left to drop, cancel or wait on. (b) The generated Subtask implementation of three async imports (flat string parameter, parameters in a block, list of records that own strings), called in the order the runtime uses: parameters are lowered canonically into buffers that stay allocated, the core call receives exactly those while they are still allocated, each of the two release callbacks frees exactly the lowered buffers once (and not the block), results are lifted from the result area and take the callee\'s buffer over, nothing is left allocated. WHEN the runtime calls which callback, for every host schedule, is C21.',
+   note='Not covered: string/list payloads through the executor (the harnesses exist but exceed CBMC\'s memory; the generated callbacks are covered on their own, copied out of the import function by rule R2), pending calls (the runtime side is C21/C22), the cancellation signal of a dropped async export (function-local built-in, cannot be stubbed), owned handles. The generator is run with --runtime-path crate::rt and its output mounted in crates/guest-rust under a second cfg set only by this check.')
 
 CHECKS['C10'] = dict(
    engine='cbmc', category='other', design_ref='DESIGN.md §9.14 C10/C11',
    technique='CBMC (wasm32 data model) on the bindings the real C generator produces for a value probe world, the harness acting as the host at the core-ABI boundary with hand-written Canonical-ABI encodings',
-   text='PARTIAL and BOUNDED (level "other"): for ONE probe world, export direction. Every generated C export wrapper hands the user function exactly the value the host lowered and stores exactly the value the user returned at its canonical offsets (4-byte pointers): record, tuple, option, result, flags, enum and the numeric cases of a variant with a joined slot over their full domains; string, list<u32>, list<tuple<u8,u32,u8>>, the variant\'s string case and list<string> for bounded lengths.',
-   note='BOUNDED: list/string lengths 0..=2 (list<string>: <= 1 element of <= 1 byte); one probe world; imports, async and resources not driven. Minimal hand-written ILP32 libc headers (no 32-bit headers in the sandbox); host side hand-written from CanonicalABI.md.')
+   text='PARTIAL and BOUNDED (level "other"): for ONE probe world, export direction plus one import. Every generated C export wrapper hands the user function exactly the value the host lowered and stores exactly the value the user returned at its canonical offsets (4-byte pointers): record, tuple, option, result, flags, enum and the numeric cases of a variant with a joined slot over their full domains; a variant { f32, u64, f64 } over every bit pattern through an export and through an import (the host lifting the joined i64 slot as the canonical ABI does); string, list<u32>, list<tuple<u8,u32,u8>>, the variant\'s string case, a record with string and list fields, result<string, u32> and list<string> for bounded lengths.',
+   note='BOUNDED: list/string lengths 0..=2 (list<string>: <= 1 element of <= 1 byte); one probe world; async and resource values not driven. Minimal hand-written ILP32 libc headers (no 32-bit headers in the sandbox); host side hand-written from CanonicalABI.md.')
 CHECKS['C11'] = dict(
    engine='cbmc', category='other', design_ref='DESIGN.md §9.14 C10/C11',
-   technique='CBMC (wasm32 data model, --pointer-check --bounds-check --memory-leak-check) on the same generated C: the allocator model decides leaks, double frees, use after free and out-of-bounds accesses',
-   text='PARTIAL and BOUNDED (level "other"): for string, list<u32>, list<tuple>, a variant with a string case and list<string> parameters and results of one probe world: after the export wrapper, the user function (which frees its arguments with the generated *_free helpers) and the generated post-return, nothing is leaked, nothing is freed twice, nothing is used after free or accessed out of bounds; post-return of the numeric variant cases frees nothing; the arguments of an import are passed without a copy, left untouched and remain the caller\'s to free.',
-   note='BOUNDED: lengths as C10. Not covered: an exported resource\'s destructor, free helpers of types outside the probe, async.')
+   technique='CBMC (wasm32 data model, --pointer-check --bounds-check --memory-leak-check) on the generated C of two probe worlds (values; resources, generated with and without --autodrop-borrows): the allocator model decides leaks, double frees, use after free and out-of-bounds accesses, the harness as host records every resource.drop / new / rep; plus a comparison of every __export_name__ with an independent spec of the component model\'s export names',
+   text='PARTIAL and BOUNDED (level "other"): for string, list<u32>, list<tuple>, a variant with a string case and list<string> parameters and results of one probe world: after the export wrapper, the user function (which frees its arguments with the generated *_free helpers) and the generated post-return, nothing is leaked, nothing is freed twice, nothing is used after free or accessed out of bounds; post-return of the numeric variant cases frees nothing; the arguments of an import are passed without a copy, left untouched and remain the caller\'s to free. Resources (second probe world, default options and --autodrop-borrows yes): a borrow of an imported resource lent to an export - plain, in an option, in a variant whose other case is an integer in the same flat slot - is dropped by the bindings exactly once when autodrop is on and never when it is off, and no other handle is touched; own arguments/results and borrows of exported resources release nothing; each exported resource\'s destructor export calls that resource\'s user destructor exactly once and is exported under `<interface>#[dtor]<WIT name>` (single- and multi-word names); drop_own / drop_borrow / new / rep helpers make exactly one built-in call; every generated *_free helper of an interface that is both imported and exported releases all owned memory on both sides.',
+   note='BOUNDED: lengths as C10; handles over all non-zero i32. Two genuine defects were found with this check and repaired (fix: 5f82076 [dtor] export name, fix: c7cd17d missing export-side free helpers; known-findings.txt). Not covered: async, resources inside lists, free helpers of types outside the probes; that the component encoder wires a recognised [dtor] export is wit-component\'s contract (read, not verified).')
 
 NOT_APPLICABLE = {
  'C01': 'shared ABI generator is generic over Bindgen/Resolve with closures and iterator adapters (outside the Verus subset); Kani did not finish one tuple<u8,u32> through the real generator in 15 min (DESIGN §5)',
